@@ -682,6 +682,10 @@ class LiteralUnmarshaller(AbstractUnmarshaller[LiteralT], tp.Generic[LiteralT]):
     def __call__(self, val: tp.Any) -> LiteralT:
         if val in self.values:
             return val
+        # Bytes-like text is text: compare it as such before evaluating it.
+        text = serdes.decode(val)
+        if text is not val and text in self.values:
+            return text
         decoded = serdes.load(val)
         if decoded in self.values:
             return decoded  # type: ignore[return-value]
